@@ -60,6 +60,9 @@ func c29Pick(t reflect.Type, vs []reflect.Value, idx int) reflect.Value {
 	return v
 }
 
+// c29ZeroEnums: generated enumeration types in which Go value 0 carries a name (reported once per run).
+var c29ZeroEnums = map[string]bool{}
+
 // c29NoStar is set while a configuration generated with -simplify_wildcard_paths is driven.
 var c29NoStar bool
 
@@ -72,6 +75,16 @@ func keyValuePool(cfg *lib.Cfg, seed int64, n int) map[reflect.Type][]reflect.Va
 	pool := map[reflect.Type][]reflect.Value{}
 	seen := map[string]bool{}
 	add := func(v reflect.Value) {
+		if e := v; e.IsValid() {
+			for e.Kind() == reflect.Interface && !e.IsNil() {
+				e = e.Elem()
+			}
+			if e.Kind() == reflect.Int64 && e.Type().Implements(goEnumType) && e.Int() == 0 {
+				// a YANG enumeration value -1 is generated as Go value 0, which ygot reads as "unset"
+				c29ZeroEnums[e.Type().Name()] = true
+				return
+			}
+		}
 		c, _ := lib.CanonScalar(v, true)
 		k := v.Type().String() + "|" + c
 		if seen[k] {
@@ -169,7 +182,11 @@ func runC29(r *lib.Run) {
 		r.Hit("configuration")
 		r.Hit("configuration:" + name)
 		c29NoStar = cfg.Simplify
+		c29ZeroEnums = map[string]bool{}
 		pool := keyValuePool(cfg, r.Seed, tuples)
+		for tn := range c29ZeroEnums {
+			r.Violate("enum-key-value-unusable", "yang-value-minus-one-is-go-zero", "enumeration type "+tn+" names Go value 0 (YANG value -1 + 1), which ygot treats as unset: as a list key it resolves to an empty key string", map[string]interface{}{"cfg": name, "type": tn})
+		}
 		root := reflect.ValueOf(cfg.PathRoot())
 		rootInfo := cfg.Info(reflect.TypeOf(cfg.NewRoot()))
 		type frame struct {
